@@ -109,12 +109,6 @@ EXTRA = [
      """                not_ready()
                 return extern""",
      """                return extern"""),
-    ("C03", "assignment-evaluated-once-eagerly", "pdpy11/compiler.py",
-     """        self.symbols[name] = (insn, Deferred[int](lambda: insn.value.resolve(state), insn.target.name))""",
-     """        value = Deferred[int](lambda: insn.value.resolve(state), insn.target.name)
-        if not isinstance(value, BaseDeferred) and isinstance(value, int) and value > 0o177777:
-            value = value & 0o177777
-        self.symbols[name] = (insn, value)"""),
     ("C03", "shift-of-forward-symbol-not-awaited", "pdpy11/operators.py",
      """def lshift(token, a: int, b: int) -> int:
     b = wait(b)
